@@ -289,6 +289,7 @@ struct Env {
     user_dir: String,
     tmp_files: Vec<String>,
     counter: usize,
+    last_layout: String,
 }
 
 fn b(v: &Value, key: &str, default: bool) -> bool {
@@ -323,6 +324,7 @@ fn build_config(desc: &Value, env: &mut Env) -> Result<Config, String> {
         }
         layout_path = p;
     }
+    env.last_layout = layout_path.clone();
     let c = CString::new(layout_path.clone()).map_err(|e| e.to_string())?;
     let ok = unsafe { riti_config_set_layout_file(ptr, c.as_ptr()) };
     if !ok {
@@ -414,7 +416,7 @@ fn run_scenario(sc: &Value) -> Value {
     if sc.get("mkdir_user_dir").and_then(|x| x.as_bool()).unwrap_or(true) {
         let _ = std::fs::create_dir_all(&user_dir);
     }
-    let mut env = Env { xdg, user_dir, tmp_files: Vec::new(), counter: 0 };
+    let mut env = Env { xdg, user_dir, tmp_files: Vec::new(), counter: 0, last_layout: String::new() };
     let mut ctxs: HashMap<i64, RitiContext> = HashMap::new();
     let mut out = Vec::new();
     let empty = Vec::new();
@@ -500,8 +502,21 @@ fn run_scenario(sc: &Value) -> Value {
             "update" => match build_config(&st["config"], &mut env) {
                 Ok(cfg) => {
                     if let Some(c) = ctxs.get_mut(&cid) {
+                        // "layout_unreadable": the layout file is half written while the update runs (an editor is saving it) and whole again afterwards
+                        let saved = if b(st, "layout_unreadable", false) {
+                            let bytes = std::fs::read(&env.last_layout).ok();
+                            if bytes.is_some() {
+                                let _ = std::fs::write(&env.last_layout, b"{\"info\": {");
+                            }
+                            bytes
+                        } else {
+                            None
+                        };
                         if let Err(p) = guarded(|| c.update_engine(&cfg)) {
                             r.insert("panic".into(), json!(p));
+                        }
+                        if let Some(bytes) = saved {
+                            let _ = std::fs::write(&env.last_layout, bytes);
                         }
                     } else {
                         r.insert("error".into(), json!("no such context"));
